@@ -212,7 +212,7 @@ def splice(scratch, units, report):
             src = open(p).read()
             if src.count(old) != 1:
                 raise Undecided(f"anchor-lost: {file}: import line {old!r} found {src.count(old)} times")
-            src = src.replace(old, new.replace("\\n", "\n"))
+            src = src.replace(old, "" if new == "<empty>" else new.replace("\\n", "\n"))
             open(p, "w").write(src)
             report.append({"kind": "subst", "file": file, "old": old, "new": new})
 
@@ -341,9 +341,10 @@ def playback(scratch, h):
     rc, out, secs, to = run(cmd, cwd=os.path.join(scratch, h.unit.crate), timeout=h.timeout * 2 + 300)
     out = _strip_noise(out)
     tests = []
-    for m in re.finditer(r"let concrete_vals: Vec<Vec<u8>> = vec!\[(.*?)\n\s*\];", out, re.S):
+    for m in re.finditer(r"/// Check for `(\w+)`: \"(.*?)\"\s*\n(?:.*\n)*?\s*let concrete_vals: Vec<Vec<u8>> = vec!\[(.*?)\n\s*\];", out):
+        kind, desc = m.group(1), m.group(2)
         vals, dec = [], []
-        for l in m.group(1).splitlines():
+        for l in m.group(3).splitlines():
             l = l.strip()
             mm = re.match(r"^vec!\[(.*)\],?$", l)
             if mm:
@@ -351,7 +352,7 @@ def playback(scratch, h):
                 vals.append([int(x) for x in s.split(",") if x.strip()] if s else [])
             elif l.startswith("//"):
                 dec.append(l[2:].strip())
-        tests.append((vals, dec))
+        tests.append((vals, dec, kind, desc))
     return tests, out
 
 
